@@ -376,9 +376,9 @@ MODELS[:0] = [
     (r'as Iterator>::enumerate$', m_enumerate), (r'as IntoIterator>::into_iter$', m_into_iter2), (r'as Iterator>::next$', m_it_next),
     (r'^<dyn Service<.*>::poll_ready$', m_dyn_poll_ready), (r'^<dyn Service<.*>::call$', m_dyn_call),
     (r'^<dyn InternalServiceFactory as InternalServiceFactory>::create$', m_dyn_create),
-    (r'^<dyn Future<.*>::poll$', m_dyn_fut_poll), (r'^Pin::<.*>::as_mut$', m_pin_as_mut), (r'^Pin::<.*>::get_mut$', m_pin_get_mut),
+    (r'^<dyn (futures_core::)?Future<.*>::poll$', m_dyn_fut_poll), (r'^Pin::<.*>::as_mut$', m_pin_as_mut), (r'^Pin::<.*>::get_mut$', m_pin_get_mut),
     (r'UnboundedReceiver::<.*>::poll_recv$', m_poll_recv), (r'oneshot::Sender::<.*>::send$', m_oneshot_send),
-    (r'actix_rt::time::sleep$', m_sleep), (r'^Box::<.*>::pin$', m_box_pin), (r'^<Sleep as Future>::poll$', m_sleep_poll), (r'^Sleep::reset$', m_sleep_reset),
+    (r'actix_rt::time::sleep$', m_sleep), (r'^Box::<.*>::pin$', m_box_pin), (r'^<Sleep as (futures_core::)?Future>::poll$', m_sleep_poll), (r'^Sleep::reset$', m_sleep_reset),
     (r'^Duration::from_secs$', m_dur_secs), (r'Instant::elapsed$', m_elapsed), (r'^<Duration as PartialOrd>::ge$', m_dur_ge),
     (r'^std::mem::take::<WorkerState>$', m_mem_take), (r'Ready::<.*>::into_inner$', m_ready_into_inner),
 ]
